@@ -1,5 +1,5 @@
 //! Correspondence of the translated code's vocabulary (lean/SyModel/Generated/Prelude.lean) with the real std functions:
-//! `Path::{parent, file_name, file_stem, extension, join, with_file_name, strip_prefix}`, the crate's own `temp_file::working_file_path` against its TRANSLATION (unit TempFile), `str::{to_lowercase, eq_ignore_ascii_case, rsplit}`,
+//! `Path::{parent, file_name, file_stem, extension, join, with_file_name, strip_prefix}`, the crate's own `temp_file::working_file_path` against its TRANSLATION (unit TempFile), `Path::starts_with`, `str::{to_lowercase, eq_ignore_ascii_case, rsplit, starts_with, ends_with}`, `sort_by_key` (bool key, stable), `partition`, `div_ceil`, `abs_diff`, `saturating_sub`,
 //! `SystemTime::duration_since`, `Duration::as_secs`, `format!("{}", n)`.  Inputs inside the documented domain of the
 //! Prelude (clean relative path texts: no empty, `.` or `..` component, no leading or trailing `/`; ASCII) must agree;
 //! inputs outside it are run as well and only counted (tags `outside.*`), so that the evidence shows where the domain ends.
@@ -64,6 +64,25 @@ pub fn run(tier: &str, seed: u64, driver_path: &str) -> Report {
         let base: String = if rng.chance(2, 3) { let cs: Vec<&str> = p.split('/').collect(); cs[..rng.below(cs.len() as u64 + 1) as usize].join("/") } else { path_text(&mut rng) };
         let real = match pp.strip_prefix(Path::new(&base)) { Ok(r) => format!("ok:{}", hex(r.to_string_lossy().as_bytes())), Err(_) => "err".into() };
         check(&mut rep, &mut drv, "strip_prefix", format!("prelude.strip_prefix {} {}", h, hex(base.as_bytes())), real, dom && (base.is_empty() || in_domain(&base)));
+        // component-wise `Path::starts_with` (the guard of repair 0e87354 and the exclusion of children rest on it), textual
+        // `str::starts_with`, `str::ends_with('/')`
+        let bdom = dom && (base.is_empty() || in_domain(&base));
+        check(&mut rep, &mut drv, "path_starts_with", format!("prelude.path_starts_with {} {}", h, hex(base.as_bytes())), pp.starts_with(Path::new(&base)).to_string(), bdom);
+        check(&mut rep, &mut drv, "str_starts_with", format!("prelude.str_starts_with {} {}", h, hex(base.as_bytes())), p.starts_with(base.as_str()).to_string(), true);
+        check(&mut rep, &mut drv, "ends_with_slash", format!("prelude.ends_with_slash {}", h), p.ends_with('/').to_string(), true);
+        // list vocabulary of unit EngineOrder: the STABLE sort by a boolean key (false first) and `partition`
+        let xs: Vec<u64> = (0..rng.range(0, 9)).map(|_| rng.below(20)).collect();
+        let lst = if xs.is_empty() { "-".to_string() } else { xs.iter().map(|x| x.to_string()).collect::<Vec<_>>().join(",") };
+        let mut sorted = xs.clone(); sorted.sort_by_key(|x| x % 2 == 1);
+        let show = |v: &Vec<u64>| v.iter().map(|x| x.to_string()).collect::<Vec<_>>().join(",");
+        check(&mut rep, &mut drv, "sort_by_key_bool", format!("prelude.sort_by_key_odd {}", lst), show(&sorted), true);
+        let (pa, pb): (Vec<u64>, Vec<u64>) = xs.iter().partition(|x| *x % 2 == 1);
+        check(&mut rep, &mut drv, "partition", format!("prelude.partition_odd {}", lst), format!("{}|{}", show(&pa), show(&pb)), true);
+        let (da, db) = (rng.below(1 << 40), 1 + rng.below(1 << 20));
+        check(&mut rep, &mut drv, "div_ceil", format!("prelude.div_ceil {} {}", da, db), da.div_ceil(db).to_string(), true);
+        let (aa, ab) = (rng.below(1000), rng.below(1000));
+        check(&mut rep, &mut drv, "abs_diff", format!("prelude.abs_diff {} {}", aa, ab), aa.abs_diff(ab).to_string(), true);
+        check(&mut rep, &mut drv, "saturating_sub", format!("prelude.saturating_sub {} {}", aa, ab), aa.saturating_sub(ab).to_string(), true);
         // strings
         let s = comp(&mut rng) + &comp(&mut rng);
         check(&mut rep, &mut drv, "to_lowercase", format!("prelude.to_lowercase {}", hex(s.as_bytes())), hex(s.to_lowercase().as_bytes()), true);
